@@ -8,6 +8,7 @@ import (
 	"io"
 	"log/slog"
 	"net"
+	"sort"
 	"sync"
 	"time"
 )
@@ -134,6 +135,7 @@ func (c *connection) write() {
 	for {
 		select {
 		case <-c.stopChan:
+			c.abandonActiveMessages(record)
 			clear(record)
 			return
 		case activeMsg, ok := <-c.activeMsgChan: // 平台主动下发的
@@ -183,6 +185,24 @@ func (c *connection) stop() {
 		// activeMsgCompleteChan 不关闭: 写协程和超时协程可能还在往里发送 关闭会导致panic
 		close(c.reissuePackChan)
 	})
+}
+
+// abandonActiveMessages 连接断开时 还在等待终端回复的主动下发都返回错误 避免调用方一直阻塞
+func (c *connection) abandonActiveMessages(record map[uint16]*ActiveMessage) {
+	err := errors.Join(ErrNotExistKey, fmt.Errorf("key=[%s] connection closed", c.key))
+	// 按照下发的流水号顺序返回
+	seqs := make([]uint16, 0, len(record))
+	for seq := range record {
+		seqs = append(seqs, seq)
+	}
+	sort.Slice(seqs, func(i, j int) bool { return seqs[i] < seqs[j] })
+	for _, seq := range seqs {
+		record[seq].replyChan <- newErrMessage(err)
+	}
+	// 已经入队但是还没有下发的 (stop中leave以后会关闭activeMsgChan)
+	for activeMsg := range c.activeMsgChan {
+		activeMsg.replyChan <- newErrMessage(err)
+	}
 }
 
 func (c *connection) defaultReplyEvent(msg *Message) {
